@@ -349,7 +349,7 @@ class CallMixin:
         if name in P.contracts and P.contracts[name].kind in ('function', 'lemma'):
             args, kw = self.args_of(n, st)
             return self.call_contract(P.contracts[name], args, kw, st, n)
-        if name in P.classes:
+        if name in P.classes and name != 'type':
             ctor = self.eng.find_method(name, '__init__')
             args, kw = self.args_of(n, st)
             obj = self.new_object(name, st)
@@ -522,7 +522,21 @@ class CallMixin:
         return z3.BoolVal(False)
 
     def bi_type(self, n, st):
-        raise Unsupported('type() outside a supported comparison')
+        # type(x) as a value: the class object of x, an object of the declared class 'type' (attribute stores on it are
+        # stores to class attributes).  Determined by the dynamic class of x.
+        if 'type' not in self.eng.prop.classes or len(n.args) != 1:
+            raise Unsupported('type() outside a supported comparison')
+        v = self.ev(n.args[0], st)
+        if not isinstance(v.t, T.Ref):
+            raise Unsupported('type() of a non-object')
+        self.nonnull(v, st)
+        f = z3.Function('typeobj', z3.IntSort(), z3.IntSort())
+        z = f(self.eng.cls_of(v.z))
+        st.assume(z > 0)
+        st.assume(z <= st.h(('alloc',)))
+        r = SV(T.Ref('type'), z)
+        self.assume_class(r, st)
+        return r
 
     def bi_list(self, n, st):
         if not n.args:
